@@ -1364,6 +1364,7 @@ class LangServer:
                 # Other files must not stay linked to the removed objects
                 self.link_version = (self.link_version + 1) % 1000
                 for _, tmp_file in self.workspace.items():
+                    tmp_file.ast.resolve_includes(self.workspace, path=filepath)
                     tmp_file.ast.resolve_links(self.obj_tree, self.link_version)
             return
         did_change, err_str = self.update_workspace_file(
